@@ -5,12 +5,12 @@ astrophysical ones are the accepted (IAU 2015 nominal / CODATA 2018 / IAU 2012) 
 from fractions import Fraction as F
 
 NAME_ORDER = ["mm", "cm", "m", "km", "g", "kg", "s", "min", "h", "K", "erg", "J", "W",
-              "au", "pc", "yr", "M_sun", "M_earth", "M_jup", "R_sun", "R_earth", "R_jup", "L_sun", "L_bol0", "ar"]
+              "au", "pc", "yr", "M_sun", "M_earth", "M_jup", "R_sun", "R_earth", "R_jup", "L_sun", "L_bol0", "ar", "G"]
 PINT_NAME = {"mm": "millimeter", "cm": "centimeter", "m": "meter", "km": "kilometer", "g": "gram", "kg": "kilogram",
              "s": "second", "min": "minute", "h": "hour", "K": "kelvin", "erg": "erg", "J": "joule", "W": "watt",
              "au": "astronomical_unit", "pc": "parsec", "yr": "year", "M_sun": "solar_mass", "M_earth": "earth_mass",
              "M_jup": "jupiter_mass", "R_sun": "solar_radius", "R_earth": "earth_radius", "R_jup": "jupiter_radius",
-             "L_sun": "solar_luminosity", "L_bol0": "bolometric_luminosity", "ar": "radiation_constant"}
+             "L_sun": "solar_luminosity", "L_bol0": "bolometric_luminosity", "ar": "radiation_constant", "G": "gauss"}
 SPEC_NAME = {v: k for k, v in PINT_NAME.items()}
 
 # exact CGS value of one unit (metric) / accepted value (astro)
@@ -25,18 +25,20 @@ CGS = {
     "R_sun": F(6957, 10 ** 3) * 10 ** 10, "R_earth": F(63781, 10 ** 4) * 10 ** 8, "R_jup": F(71492, 10 ** 4) * 10 ** 9,
     "L_sun": F(3828, 10 ** 3) * 10 ** 33, "L_bol0": F(30128, 10 ** 4) * 10 ** 35,
     "ar": F(7565733, 10 ** 6) * F(1, 10 ** 15),
+    "G": F(1),       # gauss: kept as its own pseudo-dimension (5th entry of DIM); osyris labels magnetic fields in G
 }
 DIM = {}
 for _n in ("mm", "cm", "m", "km", "au", "pc", "R_sun", "R_earth", "R_jup"):
-    DIM[_n] = (1, 0, 0, 0)
+    DIM[_n] = (1, 0, 0, 0, 0)
 for _n in ("g", "kg", "M_sun", "M_earth", "M_jup"):
-    DIM[_n] = (0, 1, 0, 0)
+    DIM[_n] = (0, 1, 0, 0, 0)
 for _n in ("s", "min", "h", "yr"):
-    DIM[_n] = (0, 0, 1, 0)
-DIM["K"] = (0, 0, 0, 1)
-DIM["erg"] = DIM["J"] = (2, 1, -2, 0)
-DIM["W"] = DIM["L_sun"] = DIM["L_bol0"] = (2, 1, -3, 0)
-DIM["ar"] = (-1, 1, -2, -4)
+    DIM[_n] = (0, 0, 1, 0, 0)
+DIM["K"] = (0, 0, 0, 1, 0)
+DIM["erg"] = DIM["J"] = (2, 1, -2, 0, 0)
+DIM["W"] = DIM["L_sun"] = DIM["L_bol0"] = (2, 1, -3, 0, 0)
+DIM["ar"] = (-1, 1, -2, -4, 0)
+DIM["G"] = (0, 0, 0, 0, 1)
 
 
 def sparse_of_pint(unit):
@@ -66,9 +68,9 @@ def cgs_of_sparse(sparse):
 
 
 def dim_of_sparse(sparse):
-    d = [0, 0, 0, 0]
+    d = [0, 0, 0, 0, 0]
     for n, e in sparse:
-        for i in range(4):
+        for i in range(5):
             d[i] += DIM[n][i] * int(e)
     return tuple(d)
 
